@@ -52,6 +52,17 @@ def canary_stranded(traces):
             return c, 'one attempt never received a result'
 
 
+def canary_foreign_failure(traces):
+    for tr in traces:
+        if tr['cls'] != 'reuse-after-refusal':
+            continue
+        for j, e in enumerate(tr['ev']):
+            if e['t'] == 'ret' and e['kind'] in ('whole', 'map') and e['per'] and all(x == 'ok' for x in e['per']):
+                c = copy.deepcopy(tr)
+                c['ev'][j].update({'kind': 'raise', 'cls': 'T', 'per': [], 'code': 421, 'marker': 0})
+                return c, 'a request whose own transaction the downstream accepted throughout reported as failed'
+
+
 def run(tier):
     wd = workdir('C19')
     q = tier == 'quick'
@@ -63,7 +74,7 @@ def run(tier):
     mc.append({'name': 'deviation KF_NoRespawn: TLC must find the stranded request', 'module': 'RelayPool',
                'cfg': flow.write_cfg(wd, 'rp_kf.cfg', RP_CFG % (1, 3, 'FALSE', 'TRUE', 5)), 'expect_violation': ['C19_NoStranding']})
     return flow.standard(
-        'C19', tier, mc, 'c19', 'Trace_Pool', 'Trace_Pool.cfg', [canary_bound, canary_other_result, canary_stranded],
+        'C19', tier, mc, 'c19', 'Trace_Pool', 'Trace_Pool.cfg', [canary_bound, canary_other_result, canary_stranded, canary_foreign_failure],
         level='model_checking',
         rule='2-4 attempt() calls staggered by eight call/settle/advance schedules through the real StaticSmtpRelay / '
              'StaticLmtpRelay, pool size 1, 2, 3 or unbounded, idle timeout none or 5, PIPELINING on/off, each of up to six '
